@@ -38,6 +38,9 @@ fn gen(rng: &mut Rng, idx: u64, tier: Tier) -> Case {
     let n_ac = rng.range(1, 4) as usize;
     let addrs = gen::addresses(rng, n_ac);
     let mut acs: Vec<gen::Ac> = addrs.iter().map(|&a| gen::aircraft(rng, a)).collect();
+    // two aircraft may well use the same callsign and squawk
+    let twins = acs.len() > 1 && rng.chance(0.3);
+    if twins { acs[1].callsign = acs[0].callsign.clone(); acs[1].sq = acs[0].sq; }
     let n = if tier == Tier::Thorough && rng.chance(0.05) { rng.range(80, 300) } else { rng.range(3, 50) } as usize;
     if idx % 2 == 0 {
         // presentation neutrality
@@ -89,7 +92,7 @@ fn gen(rng: &mut Rng, idx: u64, tier: Tier) -> Case {
         for _ in 0..n {
             let a = rng.below(n_ac as u64) as usize;
             if rng.chance(0.3) { acs[a].alt_n = rng.range(41, 1800) as u64; }
-            if rng.chance(0.2) { acs[a].callsign = gen::callsign(rng); }
+            if rng.chance(0.2) && !twins { acs[a].callsign = gen::callsign(rng); }
             if rng.chance(0.2) { acs[a].sq = [rng.below(8), rng.below(8), rng.below(8), rng.below(8)]; }
             let k = *rng.pick(&kinds);
             let f = gen::frame(rng, &mut acs[a], k, true);
